@@ -343,7 +343,7 @@ def step (fixed : Bool) (s : St) : Step → Res
     if o ∈ s.queued ∧ o ∉ s.h.pq then Res.ok { s with h := { s.h with objs := freshObj s.h.objs o } }
     else Res.disabled
   | .put o =>
-    if o ∈ s.queued ∨ o ∈ s.map ∨ o ∈ s.dmap ∨ o ∈ s.h.pq then Res.disabled   -- ids are unique (C12)
+    if o ∈ s.queued ∨ o ∈ s.map ∨ o ∈ s.dmap ∨ o ∈ s.h.pq ∨ o ∈ s.dpq.map (·.2) then Res.disabled   -- ids are unique (C12)
     else Res.ok { s with h := { s.h with objs := freshObj s.h.objs o }, queued := o :: s.queued }
 
 /-- run a schedule; stops at the first panic or disabled step -/
